@@ -9,18 +9,34 @@ impl InstructionGenerator {
     pub fn visit_dim_list(&mut self, item: DimList) {
         let DimList { shared, variables } = item;
         for dim_var_pos in variables {
-            self.visit_dim_var_pos(dim_var_pos, false, shared);
+            self.visit_dim_var_pos(dim_var_pos, false, shared, "dim");
+        }
+    }
+
+    /// Allocates the variables of a DIM at the start of the module or subprogram
+    /// (the DIM statement itself is generated as well, where it is written,
+    /// so the labels of the two need different names).
+    pub fn visit_dim_list_up_front(&mut self, item: DimList) {
+        let DimList { shared, variables } = item;
+        for dim_var_pos in variables {
+            self.visit_dim_var_pos(dim_var_pos, false, shared, "dim-up-front");
         }
     }
 
     pub fn visit_redim_list(&mut self, item: DimList) {
         let DimList { shared, variables } = item;
         for dim_var_pos in variables {
-            self.visit_dim_var_pos(dim_var_pos, true, shared);
+            self.visit_dim_var_pos(dim_var_pos, true, shared, "dim");
         }
     }
 
-    fn visit_dim_var_pos(&mut self, item: DimVarPos, is_redim: bool, shared: bool) {
+    fn visit_dim_var_pos(
+        &mut self,
+        item: DimVarPos,
+        is_redim: bool,
+        shared: bool,
+        label_suffix: &str,
+    ) {
         let Positioned {
             element: dim_name,
             pos,
@@ -33,11 +49,13 @@ impl InstructionGenerator {
                 "Should not be possible to have a SHARED variable inside a function/sub"
             );
             self.push(Instruction::IsVariableDefined(dim_name.clone()), pos);
-            self.jump_if_false("begin-dim", pos);
-            self.jump("end-dim", pos);
-            self.label("begin-dim", pos);
+            let begin_label = format!("begin-{}", label_suffix);
+            let end_label = format!("end-{}", label_suffix);
+            self.jump_if_false(&begin_label, pos);
+            self.jump(&end_label, pos);
+            self.label(&begin_label, pos);
             self.generate_dim_name(dim_name, shared, is_redim, pos);
-            self.label("end-dim", pos);
+            self.label(&end_label, pos);
         } else {
             self.generate_dim_name(dim_name, shared, is_redim, pos);
         }
